@@ -9,7 +9,7 @@ import Req.C07.Interim
 import Req.C07.Token
 import Req.C07.H1Budget
 import Req.C07.H3Budget
-import Req.Client.Digest
+import Req.Client.DigestAuth
 /-! Driver lanes of C07. -/
 namespace Req.Driver.L.C07
 open Req.Proto
@@ -235,15 +235,18 @@ def laneH3Fields : List String → String
     | none => "bad-op"
   | _ => "bad-op"
 
-/-- `c07digest <hex WWW-Authenticate value>` → `ok <realm> <nonce> <qop> <algorithm>` / `bad` / `charset` -/
+/-- `c07digest <hex WWW-Authenticate value>` → `ok <realm> <nonce> <qop> <algorithm>` / `bad` / `charset`
+/ `alg` / `qop` (the repaired RFC 7235 challenge reader, model `Req.DigestAuth` of C20) -/
 def laneDigest : List String → String
   | [hex] =>
     match decodeHex hex with
     | some s =>
-      match Req.Digest.parseChallenge s with
+      match Req.DigestAuth.parseChallenge Req.Digest.algOf s with
       | .ok c => "ok " ++ encodeHex c.realm ++ " " ++ encodeHex c.nonce ++ " " ++ encodeHex c.qop ++ " " ++ encodeHex c.algorithm
       | .error .badChallenge => "bad"
       | .error .charset => "charset"
+      | .error .algNotSupported => "alg"
+      | .error .qopNotSupported => "qop"
       | .error _ => "other-error"
     | none => "bad-op"
   | _ => "bad-op"
